@@ -379,6 +379,8 @@ def run_program(text, *, fuel=FUEL_DEFAULT, extra_globals=None, name="__main__")
         g["vkm_%d" % m] = sym.SymInt(marker_tab[m])
     if extra_globals:
         g.update(extra_globals)
+    saved_hash = sym.FAITHFUL_HASH
+    sym.FAITHFUL_HASH = True
     try:
         with contextlib.redirect_stdout(io.StringIO()):
             exec(code, g)
@@ -389,6 +391,8 @@ def run_program(text, *, fuel=FUEL_DEFAULT, extra_globals=None, name="__main__")
         raise OutOfFuel() from e
     except Exception as e:  # noqa: BLE001 - the program's own exception
         return "raised", rec.trace, e
+    finally:
+        sym.FAITHFUL_HASH = saved_hash
 
 
 def equivalent(eng, before, after, *, fuel=FUEL_DEFAULT, info=None, compare_exceptions=False):
